@@ -8,11 +8,12 @@ plain-map / scan / list-intersection specification they are compared with (prope
                        (no order is observable through the API).
 * `BTreeIndex<K,V>`  – `RwLock<BTreeMap<K,V>>`; modelled as the key-ordered entry list of the map,
                        searched the way a B-tree node is searched (left to right with `Ord::cmp`:
-                       `Greater` → go on, `Equal` → found, `Less` → stop), plus the bit
-                       "a root node is allocated" that `BTreeMap::range` consults before its
-                       bound check. For a lawful total order this is the whole behaviour of
-                       `BTreeMap`; for `OrderedFloat` (whose `cmp` answers `Equal` whenever a NaN is
-                       involved) it is the behaviour while the tree is a single leaf (≤ 11 entries).
+                       `Greater` → go on, `Equal` → found, `Less` → stop). For a lawful total order
+                       (`i64`, and the repaired `OrderedFloat`: NaN = NaN > every number) this is the
+                       whole behaviour of `BTreeMap`. `BTreeIndex::range` answers inverted /
+                       empty-exclusive bounds with `[]` before it reaches `BTreeMap::range`.
+                       The behaviour before the two repairs (range panicked once a root node was
+                       allocated; `OrderedFloat::cmp` said `Equal` for any NaN) is kept as `Old.*`.
 * `TrieIndex`        – a tree of hash maps; children as association lists, `children_sorted` as
                        a sort of the keys; `TrieIterator` = (node, sorted keys, position).
 * `LeapfrogJoin`     – the `search` loop with fuel (`lfMeasure` suffices, see Props/C14Idx).
@@ -169,21 +170,34 @@ def rangeHi (cmp : K → K → Ordering) : Bound K → List (K × V) → List (K
     | .eq => []
     | .lt => []
 
-/-- the two `panic!`s at the top of `search_tree_for_bifurcation`
+/-- the guard of `BTreeIndex::range`: `s >= e` for two excluded ends, `s > e` otherwise
+(`PartialOrd` operators, i.e. `Ord::cmp`) -/
+def rangeEmpty (cmp : K → K → Ordering) : Bound K → Bound K → Bool
+  | .exc s, .exc e => cmp s e != .lt
+  | .inc s, .inc e => cmp s e == .gt
+  | .inc s, .exc e => cmp s e == .gt
+  | .exc s, .inc e => cmp s e == .gt
+  | _, _ => false
+
+/-- `BTreeIndex::range` (after the guard `BTreeMap::range` cannot panic for a lawful order) -/
+def bRange (cmp : K → K → Ordering) (t : BT K V) (lo hi : Bound K) : List (K × V) :=
+  if rangeEmpty cmp lo hi then [] else rangeHi cmp hi (rangeLo cmp lo t.ents)
+
+/-- before the repair: the two `panic!`s at the top of `search_tree_for_bifurcation`
 ("range start and end are equal and excluded", "range start is greater than range end");
 `keq` is `PartialEq::eq` of the key type, `cmp` its `Ord::cmp` -/
-def rangePanics (cmp : K → K → Ordering) (keq : K → K → Bool) : Bound K → Bound K → Bool
+def Old.rangePanics (cmp : K → K → Ordering) (keq : K → K → Bool) : Bound K → Bound K → Bool
   | .exc s, .exc e => keq s e || cmp s e == .gt
   | .inc s, .inc e => cmp s e == .gt
   | .inc s, .exc e => cmp s e == .gt
   | .exc s, .inc e => cmp s e == .gt
   | _, _ => false
 
-/-- `BTreeIndex::range`; `none` = the call panics -/
-def bRange (cmp : K → K → Ordering) (keq : K → K → Bool) (t : BT K V) (lo hi : Bound K) :
+/-- before the repair: `BTreeIndex::range` = `BTreeMap::range`; `none` = the call panics -/
+def Old.bRange (cmp : K → K → Ordering) (keq : K → K → Bool) (t : BT K V) (lo hi : Bound K) :
     Option (List (K × V)) :=
   if !t.root then some []
-  else if rangePanics cmp keq lo hi then none
+  else if Old.rangePanics cmp keq lo hi then none
   else some (rangeHi cmp hi (rangeLo cmp lo t.ents))
 
 def bStep (cmp : K → K → Ordering) (t : BT K V) : Op K V → BT K V
@@ -198,10 +212,20 @@ end BTree
 def icmp (a b : Int) : Ordering := if a < b then .lt else if a = b then .eq else .gt
 def ieq (a b : Int) : Bool := decide (a = b)
 
-/-- `Ord for OrderedFloat` on bit patterns: `partial_cmp(..).unwrap_or(Equal)` -/
-def fcmp (a b : Nat) : Ordering := (F64.partialCmp a b).getD .eq
-/-- the derived `PartialEq for OrderedFloat` = `f64 ==` -/
-def fkeq (a b : Nat) : Bool := F64.feq a b
+/-- `Ord for OrderedFloat` on bit patterns: `partial_cmp(..).unwrap_or_else(|| a.is_nan().cmp(&b.is_nan()))`
+— NaN equals NaN and is greater than every number -/
+def fcmp (a b : Nat) : Ordering :=
+  match F64.partialCmp a b with
+  | some o => o
+  | none => if F64.isNaN a then (if F64.isNaN b then .eq else .gt) else .lt
+
+/-- the integer whose order is `fcmp`: `F64.key` for numbers (−0, +0 ↦ 0), `2^63` for every NaN -/
+def fkeyI (b : Nat) : Int := if F64.isNaN b then (2 ^ 63 : Int) else F64.key b
+
+/-- before the repair: `partial_cmp(..).unwrap_or(Equal)` -/
+def Old.fcmp (a b : Nat) : Ordering := (F64.partialCmp a b).getD .eq
+/-- before the repair: the derived `PartialEq for OrderedFloat` = `f64 ==` -/
+def Old.fkeq (a b : Nat) : Bool := F64.feq a b
 
 /-! ### the scan specification of `range`, `min`, `max` -/
 section RangeSpec
